@@ -119,6 +119,8 @@ def gen_op(rng, w):
             return ['iop', t, opn, gen_dense(rng, 1, 1, rng.choice([tc, tc, 'i', 'd', 'z']))]
         if opn == '*=' and m * n == 0:
             return ['iop', t, opn, {'k': 'num', 'v': gen_num(rng, tc)}]       # in-place product of empty matrices: not defined
+        if rr < 0.62 and opn in ('+=', '-=') and m * n > 1:
+            return ['iop', t, opn, SPS.gen_sparse(rng, 'z' if (tc == 'z' and rng.random() < 0.5) else 'd', m, n)]
         if rr < 0.85:
             cands = [k for k in names if w.o(k)['M'].size == (m, n)]
             return ['iop', t, opn, {'k': 'ref', 'name': rng.choice(cands)}]
@@ -444,18 +446,18 @@ def apply(op, w, stats):
         else:
             b_model_use = b_model
 
+        import operator
+        res_box = []
+
         def fr():
-            if opn == '+=':
-                X.__iadd__(b_real)
-            elif opn == '-=':
-                X.__isub__(b_real)
-            elif opn == '*=':
-                X.__imul__(b_real)
-            elif opn == '%=':
-                X.__imod__(b_real)
-            else:
-                X.__itruediv__(b_real)
+            # the statement form A op= B: Python falls back to the reflected regular operator of B when
+            # A's in-place slot declines, and then rebinds the name to a new object
+            f = {'+=': operator.iadd, '-=': operator.isub, '*=': operator.imul, '%=': operator.imod, '/=': operator.itruediv}[opn]
+            res_box.append(f(X, b_real))
         _, _, refused = attempt('iop' + opn, fr, lambda: MDL.inplace(M, opn, b_model_use), inplace=opn)
+        if not refused and res_box and res_box[0] is not X:
+            raise Mismatch('inplace-returned-new-object', 'A %s B (B: %s) produced a new object: other names bound to A do not see the change' %
+                           (opn, op[3].get('k')), op='iop' + opn, operand=op[3].get('k'))
         if not refused:
             e['mut'] += 1
             if len(w.names_of(w.names[op[1]])) >= 2 or e['views']:
